@@ -1,4 +1,5 @@
-"""C18 only (round 2): sessions of SEVERAL store instances on one database file.
+"""C18 only: sessions of SEVERAL store instances on one database file (round 2), driven at
+the storage object or THROUGH THE PUBLIC LAYER Datastore / Bucket (round 3).
 
 harness/c06_lib.py (shared with C06, unchanged) runs one history on one freshly created
 store.  A property about "the previous flush" also speaks about the flush done while a store
@@ -15,21 +16,52 @@ advances down_us, and a new store instance is opened on the same file.  Every in
 seeded with the committed content of the file at opening, tokens count from 0, and the model
 trace starts from `init [] t0`.
 
+Round 3.  The property speaks about "an event write issued ...": the write a PROGRAM issues
+is a call of the public layer (`ds = Datastore(SqliteStorage, testing, filepath=..,
+enable_lazy_commit=..)`, `ds.create_bucket`, `ds[b].insert / replace / replace_last / delete /
+get / get_by_id / get_eventcount / metadata`), not a method of the storage object.  A session
+therefore has a LAYER:
+
+    "storage"   the calls go to the storage object (as before)
+    "api"       the store is opened through Datastore(...) and every call of the history is
+                made through Datastore / Bucket; one API call = one call of the history, so
+                "issued at t, more than 10 s after the previous flush" is dated at the entry
+                of the API call, and "durable before it returns" is judged when the API call
+                returns - whatever the wrapper does in between (read first, write twice,
+                write in pieces, use another connection)
+
+and two further kinds of step give a history a CONTEXT inside the process:
+
+    (dt_us, 0, ("companion", (call, args...)))   a call on a SECOND store (another file, opened
+                through Datastore on first use, never closed before the session ends) that is
+                alive beside the store under test and shares its clock: whatever it does is
+                no flush of the store under test
+
 Everything the oracles use is taken from the OUTSIDE (fake clock, second connection): the
 opening instant t0 is the clock's value when the constructor returned, not the store's
 `last_commit` attribute; the store's attributes are read tolerantly (a missing / None /
 non-datetime value is recorded as None and shows up as a model disagreement, never as a
-harness failure)."""
+harness failure).  Besides the trace-based statements of c06_lib.oracles there is a purely
+content-based one (`effect_violations`): the harness knows what every event write has to
+leave in the table (a row with the call's own label; the deleted id gone) and looks for
+exactly that through the second connection when the call has returned."""
 import json
 import os
 import shutil
 from datetime import datetime as _real_datetime
+from datetime import timedelta
 
 from . import common
 from . import c06_lib as lib
 
 REOPEN = "reopen"
+COMPANION = "companion"
+LAYERS = ("storage", "api")
 REPLAY_CMD = "PYTHONPATH=%s:%s /venv/bin/python -m harness.c18_replay '%s'"
+SIG_OLD = "C18:old-write-not-flushed"
+
+# calls made on a Bucket object at the API layer (ds[b].<method>)
+BUCKET_METHODS = lib.EVENT_WRITE_CALLS + ("insert_many_bad", "get_event", "get_events", "get_eventcount", "get_metadata")
 
 
 def _fake_us_or_none(d):
@@ -43,6 +75,17 @@ def _fake_us_or_none(d):
 
 def _int_or_none(x):
     return x if isinstance(x, int) and not isinstance(x, bool) else None
+
+
+def _window(w):
+    """optional time window of a read (Bucket.get / get_eventcount take starttime, endtime)"""
+    if not w:
+        return None, None
+    return lib.T0 + timedelta(seconds=1, microseconds=500), lib.T0 + timedelta(hours=1, microseconds=999_999)
+
+
+def _label(n):
+    return json.dumps({"n": n})
 
 
 class Recorder18(lib.Recorder):
@@ -71,21 +114,171 @@ class Runner18(lib.Runner):
 
     def __init__(self, session, lazy):
         self.session = session
+        self.layer = session.layer
         self.sq, self.Event, self.lazy = session.sq, session.Event, lazy
         self.dir, self.path, self.clock = session.dir, session.path, session.clock
         self.existing = os.path.exists(self.path)
         self.clock.tick = 0
-        self.st = lib.instrumented_class(self.sq)(testing=True, filepath=self.path, enable_lazy_commit=lazy)
+        cls = lib.instrumented_class(self.sq)
+        if self.layer == "api":
+            # the way a program opens the store
+            self.ds = session.Datastore(cls, testing=True, filepath=self.path, enable_lazy_commit=lazy)
+            self.st = self.ds.storage_strategy
+        else:
+            self.ds = None
+            self.st = cls(testing=True, filepath=self.path, enable_lazy_commit=lazy)
         # the flush done while opening, dated from the outside
         self.t0 = self.clock.now
         self.t0_store = _fake_us_or_none(getattr(self.st, "last_commit", None))
         self.rec = Recorder18(self.st, self.path, self.clock)
         self.steps = []
         self.own_ok = True
+        self.cached = set()       # the harness's own account of Datastore.bucket_instances
 
     def fresh(self):                      # event labels stay unique over the whole file
         self.session.counter += 1
         return self.session.counter
+
+    # -- what a call has to leave in the table (decided BEFORE the call, from the shadow)
+    def plan(self, spec):
+        """-> (arguments, effect): effect = None or {"present": [labels], "absent": [ids],
+        "first": label | None (several statement blocks: the first block's row)}"""
+        E, name = self.Event, spec[0]
+        if name not in lib.EVENT_WRITE_CALLS and name != "insert_many_bad":
+            return None, None
+        b = spec[1]
+        have = b in self.bucket_ids()
+        ids = set(self.event_ids(b)) if have else set()
+        if name == "insert_one":
+            n = self.fresh()
+            return lib._ev(E, n), ({"present": [n], "absent": [], "first": None} if have else None)
+        if name in ("insert_many", "insert_many_bad"):
+            ups = [(i, self.fresh()) for i in spec[2]]
+            rows = [self.fresh() for _ in range(spec[3])]
+            evs = [lib._ev(E, n, eid=i) for i, n in ups] + [lib._ev(E, n) for n in rows]
+            if name == "insert_many_bad":
+                evs.append(E(timestamp=lib.T0, duration=timedelta(days=200_000_000), data={"n": self.fresh()}))
+                return evs, None
+            last = {}
+            for i, n in ups:
+                if i in ids:
+                    last[i] = n
+            present = sorted(last.values()) + (rows if have else [])
+            first = None
+            if ups and ups[0][0] in ids and last.get(ups[0][0]) == ups[0][1]:
+                first = ups[0][1]
+            return evs, {"present": present, "absent": [], "first": first, "blocks": len(ups) + 1}
+        if name == "replace":
+            n = self.fresh()
+            return lib._ev(E, n), ({"present": [n], "absent": [], "first": None} if spec[2] in ids else None)
+        if name == "replace_last":
+            n = self.fresh()
+            return lib._ev(E, n), ({"present": [n], "absent": [], "first": None} if ids else None)
+        if name == "delete":
+            return None, ({"present": [], "absent": [spec[2]], "first": None} if spec[2] in ids else None)
+        return None, None
+
+    def seen(self, eff):
+        """what the second connection shows of the planned effect, right after the call"""
+        c2 = self.rec.c2
+        missing, still = [], []
+        labels = list(eff["present"])
+        for k in range(0, len(labels), 400):
+            part = labels[k:k + 400]
+            got = {r[0] for r in c2.execute("SELECT datastr FROM events WHERE datastr IN (%s)" % ",".join("?" * len(part)),
+                                            [_label(n) for n in part])}
+            missing += [n for n in part if _label(n) not in got]
+        if eff["absent"]:
+            still = [r[0] for r in c2.execute("SELECT id FROM events WHERE id IN (%s)" % ",".join("?" * len(eff["absent"])),
+                                              list(eff["absent"]))]
+        return {"missing": missing, "still": still, "n_expected": len(labels) + len(eff["absent"]),
+                "first_missing": eff.get("first") is not None and eff["first"] in missing,
+                "blocks": eff.get("blocks", 1)}
+
+    # -- the two ways of issuing a call
+    def _storage_call(self, spec, arg):
+        st, name = self.st, spec[0]
+        if name == "create_bucket":
+            st.create_bucket(spec[1], "t", "c", "h", lib.T0.isoformat(), None, None)
+        elif name == "update_bucket":
+            st.update_bucket(spec[1], **({} if spec[2] is None else {"data": {"v": spec[2]}}))
+        elif name == "delete_bucket":
+            st.delete_bucket(spec[1])
+        elif name == "insert_one":
+            st.insert_one(spec[1], arg)
+        elif name in ("insert_many", "insert_many_bad"):
+            st.insert_many(spec[1], arg)
+        elif name == "replace":
+            st.replace(spec[1], spec[2], arg)
+        elif name == "replace_last":
+            st.replace_last(spec[1], arg)
+        elif name == "delete":
+            st.delete(spec[1], spec[2])
+        elif name == "get_event":
+            st.get_event(spec[1], spec[2])
+        elif name == "get_events":
+            st.get_events(spec[1], spec[2], *_window(spec[3] if len(spec) > 3 else None))
+        elif name == "get_eventcount":
+            st.get_eventcount(spec[1], *_window(spec[2] if len(spec) > 2 else None))
+        elif name == "buckets":
+            st.buckets()
+        elif name == "get_metadata":
+            st.get_metadata(spec[1])
+        else:
+            raise RuntimeError("unknown call " + name)
+
+    def _api_call(self, spec, arg):
+        ds, name = self.ds, spec[0]
+        if name == "create_bucket":
+            ds.create_bucket(spec[1], "t", "c", "h", created=lib.T0, name=None, data=None)
+        elif name == "update_bucket":
+            ds.update_bucket(spec[1], **({} if spec[2] is None else {"data": {"v": spec[2]}}))
+        elif name == "delete_bucket":
+            ds.delete_bucket(spec[1])
+        elif name == "buckets":
+            ds.buckets()
+        elif name in BUCKET_METHODS:
+            bk = ds[spec[1]]
+            if name in ("insert_one", "insert_many", "insert_many_bad"):
+                bk.insert(arg)                       # an Event or a list of Events
+            elif name == "replace":
+                bk.replace(spec[2], arg)
+            elif name == "replace_last":
+                bk.replace_last(arg)
+            elif name == "delete":
+                bk.delete(spec[2])
+            elif name == "get_event":
+                bk.get_by_id(spec[2])
+            elif name == "get_events":
+                bk.get(spec[2], *_window(spec[3] if len(spec) > 3 else None))
+            elif name == "get_eventcount":
+                bk.get_eventcount(*_window(spec[2] if len(spec) > 2 else None))
+            elif name == "get_metadata":
+                bk.metadata()
+        else:
+            raise RuntimeError("unknown call " + name)
+
+    def call(self, dt, tick, spec):
+        """spec: tuple (name, *args) with concrete arguments; returns the exception class name or None"""
+        self.clock.now += dt
+        self.clock.tick = tick
+        arg, eff = self.plan(spec)
+        self.rec.begin_call(spec)
+        out = None
+        try:
+            if self.layer == "api":
+                self._api_call(spec, arg)
+            else:
+                self._storage_call(spec, arg)
+        except Exception as ex:
+            out = type(ex).__name__
+        self.clock.tick = 0
+        self.rec.end_call(out)
+        c = self.rec.calls[-1]
+        c["layer"] = self.layer
+        if eff is not None and out is None:
+            c["effect"] = self.seen(eff)
+        return out
 
     def shut(self, mode):
         self.own_ok = self.rec.close()
@@ -98,9 +291,53 @@ class Runner18(lib.Runner):
         return self.own_ok
 
 
+def expectation18(r, spec):
+    """c06_lib.expectation for the layer of the runner; at the API layer also which lookup
+    `ds[b]` does.  -> (expect, raises, api): api = None (storage layer) or the wire form of the
+    Model/CommitApi.v `api` constructor without its op (filled in by model_case)."""
+    exp, raises = lib.expectation(r, spec)
+    if r.layer != "api":
+        return exp, raises, None
+    name = spec[0]
+    have = set(r.bucket_ids())
+    if name == "create_bucket":
+        if exp == "rejected":
+            return exp, raises, ("ds",)
+        return exp, raises, ("create", spec[1] in r.cached)
+    if name in ("update_bucket", "delete_bucket", "buckets"):
+        return exp, raises, ("ds",)
+    b = spec[1]
+    cached = b in r.cached
+    if b not in have:
+        # ds[b]: KeyError after the bucket listing, the storage method is never reached
+        return "api-no-bucket", True, ("bucket", cached)
+    if name == "insert_many_bad":
+        # Bucket.insert adds timestamp + duration of every event before it calls the storage
+        return "api-wrapper-raises", True, ("bucket", cached)
+    return exp, raises, ("bucket", cached)
+
+
+def model_case(c):
+    """wire case of one recorded call: the script the model gives it"""
+    api = c.get("api")
+    exp = c.get("expect")
+    if api is None:
+        return lib.wire_script(lib.model_op(c))
+    if api[0] == "create":
+        return common.sx([5, [1, 0, api[1]]])
+    op = [13] if exp in ("api-no-bucket", "api-wrapper-raises") else lib.model_op(c)
+    if api[0] == "ds":
+        return common.sx([5, [0, op]])
+    return common.sx([5, [2, api[1], op]])
+
+
 class Session:
-    def __init__(self, sq, Event, lazy):
-        self.sq, self.Event, self.lazy = sq, Event, lazy
+    def __init__(self, sq, Event, lazy, layer="storage"):
+        if layer not in LAYERS:
+            raise ValueError("layer " + repr(layer))
+        self.sq, self.Event, self.lazy, self.layer = sq, Event, lazy, layer
+        from aw_datastore import Datastore
+        self.Datastore = Datastore
         self.dir = lib.scratch_dir()
         self.path = os.path.join(self.dir, "h.db")
         self.clock = lib.Clock()
@@ -109,6 +346,8 @@ class Session:
         self.segments = []
         self.steps = []
         self.cur = None
+        self.companion = None
+        self.companion_calls = 0
 
     # the generator's view (as c06_lib.Runner)
     def event_ids(self, b):
@@ -122,6 +361,47 @@ class Session:
         self.cur.index = len(self.segments)
         self.segments.append(self.cur)
 
+    def companion_call(self, spec):
+        """A call on the second store of the process (another file; plain class, not recorded).
+        Exceptions are the companion's business."""
+        if self.companion is None:
+            self.companion = self.Datastore(self.sq.SqliteStorage, testing=True,
+                                            filepath=os.path.join(self.dir, "companion.db"),
+                                            enable_lazy_commit=self.lazy)
+            self.companion_n = 0
+        ds, E = self.companion, self.Event
+        self.companion_calls += 1
+        name = spec[0]
+        try:
+            if name == "create_bucket":
+                ds.create_bucket(spec[1], "t", "c", "h", created=lib.T0)
+            elif name == "delete_bucket":
+                ds.delete_bucket(spec[1])
+            elif name == "insert_one":
+                self.companion_n += 1
+                ds[spec[1]].insert(lib._ev(E, self.companion_n))
+            elif name == "insert_many":
+                evs = []
+                for _ in range(spec[2]):
+                    self.companion_n += 1
+                    evs.append(lib._ev(E, self.companion_n))
+                ds[spec[1]].insert(evs)
+            elif name == "replace_last":
+                self.companion_n += 1
+                ds[spec[1]].replace_last(lib._ev(E, self.companion_n))
+            elif name == "get_events":
+                ds[spec[1]].get(spec[2])
+            elif name == "get_eventcount":
+                ds[spec[1]].get_eventcount()
+            elif name == "commit":
+                ds.storage_strategy.commit()
+            else:
+                raise RuntimeError("unknown companion call " + name)
+        except RuntimeError:
+            raise
+        except Exception:
+            pass
+
     def step(self, dt, tick, spec):
         spec = tuple(tuple(x) if isinstance(x, list) else x for x in spec)
         self.steps.append([dt, tick, list(spec)])
@@ -133,25 +413,41 @@ class Session:
             self.clock.now += down
             self.open()
             return
+        if spec[0] == COMPANION:
+            self.clock.now += dt
+            self.clock.tick = 0
+            self.companion_call(spec[1])
+            return
         r = self.cur
-        exp, raises = lib.expectation(r, spec)
+        exp, raises, api = expectation18(r, spec)
         r.steps.append([dt, tick, list(spec)])
         r.call(dt, tick, spec)
         c = r.rec.calls[-1]
-        c["expect"], c["raises"] = exp, raises
+        c["expect"], c["raises"], c["api"] = exp, raises, api
+        if api is not None:
+            name = spec[0]
+            if name == "delete_bucket":
+                r.cached.discard(spec[1])
+            elif (name == "create_bucket" and exp != "rejected") or (name in BUCKET_METHODS and exp != "api-no-bucket"):
+                r.cached.add(spec[1])
 
     def finish(self):
         try:
             if self.cur is not None and self.cur.rec.clock.hook is not None:
                 self.cur.shut("crash")
+            if self.companion is not None:
+                try:
+                    self.companion.storage_strategy.conn.close()
+                except Exception:
+                    pass
         finally:
             self.sq.datetime = self.real_dt
             shutil.rmtree(self.dir, ignore_errors=True)
 
 
-def run_session(sq, Event, lazy, history):
+def run_session(sq, Event, lazy, history, layer="storage"):
     """history: list of steps or generator function taking the Session.  -> finished Session"""
-    s = Session(sq, Event, lazy)
+    s = Session(sq, Event, lazy, layer)
     try:
         s.open()
         for dt, tick, spec in (history(s) if callable(history) else history):
@@ -161,29 +457,70 @@ def run_session(sq, Event, lazy, history):
     return s
 
 
+def effect_violations(r):
+    """The property statement on table CONTENT alone (call after lib.oracles(r), which dates
+    the flushes): a successful event write issued more than 10 s after the last instant at
+    which nothing was pending has left, when it returns, what it had to leave - visible to
+    the second connection.  Independent of the statement trace, so it also speaks about a
+    write that reaches the file by another route."""
+    if not r.lazy:
+        return []
+    rec, out = r.rec, []
+    F, oi = r.t0, 0
+    for ci, c in enumerate(rec.calls):
+        F_start = F
+        while oi < len(rec.obs) and rec.obs[oi]["call"] <= ci:
+            o = rec.obs[oi]
+            oi += 1
+            if o.get("J") and o["issued"] in o["J"]:
+                F = max(F, o["t"])
+        eff = c.get("effect")
+        if not eff or c["outcome"] is not None or c["t_start"] - F_start <= lib.MAX_AGE:
+            continue
+        age = (c["t_start"] - F_start) / lib.S
+        if eff["blocks"] == 1 and (eff["missing"] or eff["still"]):
+            what = []
+            if eff["missing"]:
+                what.append(f"{len(eff['missing'])} of its {eff['n_expected']} rows (labels {eff['missing'][:3]}) are not in the file")
+            if eff["still"]:
+                what.append(f"the deleted ids {eff['still'][:3]} are still in the file")
+            out.append((SIG_OLD, f"call #{ci} {c['spec']} ({c.get('layer')} layer) issued {age:.6f} s after the last instant at "
+                                 f"which nothing was pending has returned, and through a second connection " + "; ".join(what)))
+        elif eff["blocks"] > 1 and eff["first_missing"]:
+            out.append((SIG_OLD, f"call #{ci} {c['spec']} ({c.get('layer')} layer): the row of its first upsert, issued {age:.6f} s "
+                                 f"after the last flush, is not in the file when the call returns"))
+    return out
+
+
 def c18_violations(s):
-    """The C18 statements of c06_lib.oracles on every store instance of the session; the
-    opening of an instance counts as a flush at the instant the constructor returned."""
+    """The C18 statements of c06_lib.oracles (statement trace) and effect_violations (table
+    content) on every store instance of the session; the opening of an instance counts as a
+    flush at the instant the constructor returned."""
     out = []
     for r in s.segments:
-        for sig, desc in lib.oracles(r)[1]:
+        v = list(lib.oracles(r)[1])
+        have = {sig for sig, _ in v}
+        v += [x for x in effect_violations(r) if x[0] not in have]
+        for sig, desc in v:
             where = f"store instance #{r.index}" + (" (opened on the existing file)" if r.existing else "")
+            if s.layer == "api":
+                where += " opened and driven through Datastore/Bucket"
             out.append((sig, f"{where}, opened at t={r.t0 / lib.S:.6f} s: {desc}"))
     return out
 
 
 def replay_obj(s, extra=None):
-    case = {"lazy": s.lazy, "steps": s.steps}
+    case = {"lazy": s.lazy, "layer": s.layer, "steps": s.steps}
     o = {"history": case, "rerun": REPLAY_CMD % (common.REPO, common.VERIF, json.dumps(case))}
     if extra:
         o.update(extra)
     return o
 
 
-def shrink_session(sq, Event, lazy, steps, signature):
+def shrink_session(sq, Event, lazy, steps, signature, layer="storage"):
     def still(cand):
         try:
-            s = run_session(sq, Event, lazy, cand)
+            s = run_session(sq, Event, lazy, cand, layer)
         except Exception:
             return False
         return any(sig == signature for sig, _ in c18_violations(s))
@@ -194,23 +531,28 @@ def shrink_session(sq, Event, lazy, steps, signature):
 
 def run_sessions(ck, sq, Event, histories):
     """Runs the sessions, evaluates the C18 oracle, queues the model cases.
+    histories: (name, lazy, history[, layer]).
     -> (pending, wire): pending = list of (session, segment runner, trace index, script indexes)"""
     pending, wire = [], []
     seen = ck.__dict__.setdefault("_reported_signatures", set())
-    for name, lazy, h in histories:
+    for h4 in histories:
+        name, lazy, h = h4[:3]
+        layer = h4[3] if len(h4) > 3 else "storage"
         try:
-            s = run_session(sq, Event, lazy, h)
+            s = run_session(sq, Event, lazy, h, layer)
         except Exception as ex:
-            ck.disagreement("harness", f"history {name} could not be run: {type(ex).__name__}: {ex}", {"history": name})
+            ck.disagreement("harness", f"history {name} ({layer} layer) could not be run: {type(ex).__name__}: {ex}",
+                            {"history": name, "layer": layer})
             continue
         s.name = name
         for sig, desc in c18_violations(s):
-            if sig in seen:
+            key = (sig, layer)
+            if key in seen:
                 ck.count("further-failing-histories:" + sig)
                 continue
-            seen.add(sig)
-            steps = shrink_session(sq, Event, lazy, s.steps, sig)
-            ss = run_session(sq, Event, lazy, steps)
+            seen.add(key)
+            steps = shrink_session(sq, Event, lazy, s.steps, sig, layer)
+            ss = run_session(sq, Event, lazy, steps, layer)
             vv = [d for g, d in c18_violations(ss) if g == sig]
             ck.failing_input(sig, f"{name}: {vv[0] if vv else desc}", replay_obj(ss, {"found_in": name}))
         for r in s.segments:
@@ -220,12 +562,17 @@ def run_sessions(ck, sq, Event, histories):
             i_scripts = []
             for c in r.rec.calls:
                 i_scripts.append(len(wire))
-                wire.append(lib.wire_script(lib.model_op(c)))
-                ck.count("call:" + c["spec"][0])
+                wire.append(model_case(c))
+                ck.count(f"call:{layer}:" + c["spec"][0])
                 if c.get("expect"):
                     ck.count("call-variant:" + c["expect"])
+                if c.get("api") and c["api"][0] == "bucket":
+                    ck.count("api:bucket-object-" + ("reused" if c["api"][1] else "created-by-the-call"))
+                if c.get("effect"):
+                    ck.count("event-writes-checked-by-content")
             pending.append((s, r, i_trace, i_scripts))
             ck.count("store-instances")
+            ck.count("store-instances:" + layer)
             if r.existing:
                 ck.count("store-instances-opened-on-existing-file")
                 first = next((c for c in r.rec.calls if c["end_token"] > c["first_token"]), None)
@@ -238,6 +585,10 @@ def run_sessions(ck, sq, Event, histories):
             ck.count("write-statements", len(r.rec.issue_time))
             ck.count("rejected-statements", r.rec.failed_stmts)
         ck.count("histories")
+        ck.count("histories:" + layer)
+        if s.companion_calls:
+            ck.count("histories-with-a-second-store-alive")
+            ck.count("calls-on-the-second-store", s.companion_calls)
         gaps = [st[0] for st in s.steps]
         if any(g >= 86400 * lib.S for g in gaps):
             ck.count("histories-with-a-gap-of-days")
@@ -262,16 +613,114 @@ def compare_with_model(ck, prop, pending, wire):
             acc["br"][k] = acc["br"].get(k, 0) + v
             ck.count(k, v)
         for b in bad[:3]:
-            ck.disagreement("commit-model", f"{r.name}: {b}", replay_obj(s, {"disagreement": b, "instance": r.index}))
+            ck.disagreement("commit-model", f"{r.name} ({s.layer} layer): {b}",
+                            replay_obj(s, {"disagreement": b, "instance": r.index}))
     for acc in by_session.values():
         s, br = acc["s"], acc["br"]
-        canon = [s.lazy, [(dt, tick, sp[0], len(sp[2]) if sp[0] == "insert_many" else 0,
-                           sp[3] if sp[0] == "insert_many" else (sp[1:] if sp[0] == REOPEN else 0))
-                          for dt, tick, sp in s.steps]]
+        canon = [s.lazy, s.layer, [(dt, tick, sp[0], len(sp[2]) if sp[0] == "insert_many" else 0,
+                                    sp[3] if sp[0] == "insert_many" else (sp[1:] if sp[0] in (REOPEN, COMPANION) else 0))
+                                   for dt, tick, sp in s.steps]]
         nontrivial = (br.get("cc:none", 0) > 0 and (br.get("cc:count", 0) + br.get("cc:age", 0) + br.get("cc:count+age", 0)) > 0)
         ck.note_case(canon, nontrivial=nontrivial)
         if len(ck.samples) < 4 and nontrivial and len(s.steps) < 70:
-            ck.sample({"history": s.name, "lazy": s.lazy, "calls": len(s.steps), "store_instances": len(s.segments),
+            ck.sample({"history": s.name, "lazy": s.lazy, "layer": s.layer, "calls": len(s.steps),
+                       "store_instances": len(s.segments),
                        "write_statements": sum(len(r.rec.issue_time) for r in s.segments),
                        "crash_points_observed": sum(len(r.rec.obs) for r in s.segments),
                        "cond_commit_branches": br, "first_steps": s.steps[:6]})
+
+
+# ---------------------------------------------------------------------------
+# writes larger than any plausible chunk constant (black box: fake clock + second connection)
+
+BIG_N = 10_001
+
+
+def big_writes_run(sq, Event, layer, n=BIG_N):
+    """One store, one bucket; every step is (gap before the call, call, what the second
+    connection must show when it has returned).  -> list of (signature, description)"""
+    import sqlite3
+    from aw_datastore import Datastore
+    d = lib.scratch_dir()
+    clock = lib.Clock()
+    real = lib.install_fake_datetime(sq, clock)
+    out = []
+    try:
+        path = os.path.join(d, "big.db")
+        if layer == "api":
+            ds = Datastore(sq.SqliteStorage, testing=True, filepath=path, enable_lazy_commit=True)
+            st = ds.storage_strategy
+            ds.create_bucket("b", "t", "c", "h", created=lib.T0)
+            ins_many = lambda evs: ds["b"].insert(evs)
+            ins_one = lambda e: ds["b"].insert(e)
+            rep_last = lambda e: ds["b"].replace_last(e)
+            count = lambda: ds["b"].get_eventcount()
+        else:
+            st = sq.SqliteStorage(testing=True, filepath=path, enable_lazy_commit=True)
+            st.create_bucket("b", "t", "c", "h", lib.T0.isoformat(), None, None)
+            ins_many = lambda evs: st.insert_many("b", evs)
+            ins_one = lambda e: st.insert_one("b", e)
+            rep_last = lambda e: st.replace_last("b", e)
+            count = lambda: st.get_eventcount("b")
+        c2 = sqlite3.connect(path, isolation_level=None)
+        k = [0]
+
+        def evs(m, ids=()):
+            r = []
+            for i in ids:
+                k[0] += 1
+                r.append(lib._ev(Event, k[0], eid=i))
+            for _ in range(m):
+                k[0] += 1
+                r.append(lib._ev(Event, k[0]))
+            return r
+
+        def visible(lo, hi):
+            """how many of the labels lo+1..hi the second connection sees"""
+            return c2.execute("SELECT count(*) FROM events WHERE cast(substr(datastr, 7) AS INTEGER) BETWEEN ? AND ?",
+                              [lo + 1, hi]).fetchone()[0]
+
+        ins_many(evs(3))
+        count()                                               # a read: the previous flush
+        steps = [(11 * lib.S, "insert of a list of %d events" % n, lambda: ins_many(evs(n)), n),
+                 (4 * lib.S, "insert of one event (young: may stay buffered)", lambda: ins_one(evs(1)[0]), None),
+                 (10 * lib.S + 1, "replace_last", lambda: rep_last(evs(1)[0]), 1),
+                 (DAY_US + 3 * lib.S, "insert of a list of %d events" % (n + 4999), lambda: ins_many(evs(n + 4999)), n + 4999),
+                 (10_600_000, "insert of a list of 2 events with ids and %d without" % n, lambda: ins_many(evs(n, (2, 3))), 1)]
+        for gap, what, thunk, must in steps:
+            clock.now += gap
+            lo = k[0]
+            thunk()
+            hi = k[0]
+            if must is None:
+                continue
+            got = visible(lo, lo + must) if must < hi - lo else visible(lo, hi)
+            if got != must:
+                out.append((SIG_OLD, f"{layer} layer, bucket with {lo} events written: {what}, issued {gap / lib.S:.6f} s after the "
+                                     f"previous flush, has returned and a second connection sees {got} of the {must} rows "
+                                     f"that have to be durable"))
+        c2.close()
+        st.conn.close()
+    finally:
+        sq.datetime = real
+        shutil.rmtree(d, ignore_errors=True)
+    return out
+
+
+DAY_US = 86400 * lib.S
+
+
+def big_writes(ck, sq, Event, n=BIG_N):
+    for layer in LAYERS:
+        try:
+            v = big_writes_run(sq, Event, layer, n)
+        except Exception as ex:
+            ck.disagreement("harness", f"large-write run ({layer} layer) could not be run: {type(ex).__name__}: {ex}",
+                            {"layer": layer, "n": n})
+            continue
+        ck.evaluations += 5
+        ck.count("large-writes:" + layer, 3)
+        ck.coverage.setdefault("largest_single_write", {})[layer] = n + 4999
+        for sig, desc in v[:1]:
+            ck.failing_input(sig, desc, {"big": {"layer": layer, "n": n},
+                                         "rerun": REPLAY_CMD % (common.REPO, common.VERIF, json.dumps({"big": {"layer": layer, "n": n}}))})
